@@ -289,6 +289,23 @@ def make_simfs(sim):
     return SimFS()
 
 
+def file_bytes(e):
+    """Bytes of a generated plasmid file.  Variant 'extra-label' gives the
+    resistance feature a second /label qualifier placed BEFORE the standard one
+    (legal GenBank; the plasmid and its resistance are unchanged)."""
+    data = W["src_bytes"][e["source"]]
+    if e.get("variant") == "extra-label":
+        lines = data.decode("utf8").split("\n")
+        for i, line in enumerate(lines):
+            st = line.strip()
+            if st.startswith('/label="') and st[8:-1] in LABELS:
+                indent = line[: len(line) - len(line.lstrip())]
+                lines.insert(i, indent + '/label="marker alias"')
+                break
+        data = "\n".join(lines).encode("utf8")
+    return data
+
+
 def fill_fs(simfs, entries, prefix="/"):
     from fs.memoryfs import MemoryFS
     from fs.path import join
@@ -299,7 +316,7 @@ def fill_fs(simfs, entries, prefix="/"):
             MemoryFS.makedir(simfs, p, recreate=True)
             fill_fs(simfs, e.get("entries", []), p)
         elif e["kind"] == "file":
-            MemoryFS.writebytes(simfs, p, W["src_bytes"][e["source"]])
+            MemoryFS.writebytes(simfs, p, file_bytes(e))
         else:
             MemoryFS.writebytes(simfs, p, e.get("bytes", "junk").encode("utf8"))
 
@@ -312,7 +329,7 @@ def fill_real(root, entries):
             fill_real(p, e.get("entries", []))
         elif e["kind"] == "file":
             with open(p, "wb") as fh:
-                fh.write(W["src_bytes"][e["source"]])
+                fh.write(file_bytes(e))
         else:
             with open(p, "wb") as fh:
                 fh.write(e.get("bytes", "junk").encode("utf8"))
@@ -528,6 +545,29 @@ def _do_op(sim, cat, stores, regs, models, op):
                     missing = sorted(set(model["keys"]) - set(keys))[:3]
                     extra = sorted(map(str, set(keys) - set(model["keys"])))[:3]
                     raise Fail("C20.iter-once", "iteration yields a wrong key set (missing %s, unexpected %s)" % (missing, extra), sorted(model["keys"])[:6], sorted(map(str, keys))[:6])
+            elif k == "iter_partial":
+                # a client abandons an iteration (next(iter(r)), any(...), break)
+                it = iter(reg)
+                got = []
+                for _ in range(op["n"]):
+                    try:
+                        got.append(next(it))
+                    except StopIteration:
+                        break
+                del it
+                ev["result"] = len(got)
+                if "lo" not in model:
+                    bad = [x for x in got if x not in model["keys"]]
+                    if bad or len(set(got)) != len(got):
+                        raise Fail("C20.iter-once", "partial iteration yields %s" % (bad[:3] or "duplicates"))
+            elif k == "iter_nested":
+                pairs = 0
+                for a_ in reg:
+                    for b_ in reg:
+                        pairs += 1
+                ev["result"] = pairs
+                if "lo" not in model and pairs != len(model["keys"]) ** 2:
+                    raise Fail("C20.iter-once", "nested iteration visits %d pairs for %d keys" % (pairs, len(model["keys"])), len(model["keys"]) ** 2, pairs)
             elif k in ("values", "items"):
                 vals = list(reg.values()) if k == "values" else list(reg.items())
                 _resolve_uncertainty(model, set((v[0] if k == "items" else getattr(v, "id", None)) for v in vals), None)
@@ -705,6 +745,8 @@ def execute(case):
                 probes["op-on-registry-that-saw-a-fault"] += 1
         if op["op"] in ("getitem", "contains", "get"):
             probes["key:" + op.get("key_class", "?")] += 1
+        if op["op"] in ("iter_partial", "iter_nested"):
+            probes["abandoned-iteration" if op["op"] == "iter_partial" else "nested-iteration"] += 1
         if op["op"] == "add":
             probes["add"] += 1
             if op.get("overlap"):
@@ -726,6 +768,12 @@ def execute(case):
             sig = "%s:%s" % (op["op"], op.get("key_class") or op.get("kind") or "-")
             failures.append({"property": PROP, "clause": clause, "op": i, "op_id": op["id"], "signature": sig, "expected": f.get("expected"), "observed": f.get("observed"), "detail": f["detail"] + (" [original clause %s]" % f["clause"] if clause != f["clause"] else "")})
     stats["listing_permutations_seen"] = res.get("perms", 0)
+    for d in case["catalogue"]["dirs"]:
+        srcs = [e["source"] for e in d["entries"] if e["kind"] == "file" and not e.get("distractor")]
+        if len(set(srcs)) < len(srcs):
+            probes["same-plasmid-under-two-stems"] += 1
+        if any(e.get("variant") == "extra-label" for e in d["entries"]):
+            probes["file-with-extra-label"] += 1
     nontrivial = bool(probes.get("add-overlapping-member") or stats.get("faulted_ops") or probes.get("key:present", 0) >= 1 and (probes.get("key:absent-random", 0) + probes.get("key:unsupported-ext", 0) + probes.get("key:subdir", 0)) >= 1)
     return {"digest": log.digest(), "failures": failures[:8], "n_failures": len(failures), "stats": dict(stats), "probes": dict(probes), "states": sorted(states), "nontrivial": nontrivial, "steps": len(ops)}
 
@@ -756,7 +804,7 @@ def _fresh_stem(g, taken):
     raise RuntimeError("stems exhausted")
 
 
-def gen_dir(g, did, shared_stems, emb_keys):
+def gen_dir(g, did, shared_stems, emb_keys, used_sources):
     base = g.choice(list(DIR_BASES))
     elig = (W["eligible"] or {}).get(base) or []
     exts = g.choice([["gb", "gbk"], ["gb", "gbk"], ["gb"], ["gbk", "genbank"], ["gb", "gbk", "genbank"]])
@@ -766,6 +814,10 @@ def gen_dir(g, did, shared_stems, emb_keys):
         if not elig:
             break
         src = g.choice(elig)
+        again = [u for u in used_sources if u in elig]
+        if again and g.random() < 0.2:
+            src = g.choice(again)   # the same plasmid again under another stem (still typed for this base)
+        used_sources.append(src)
         c = g.random()
         if shared_stems and c < 0.3:
             stem = g.choice(shared_stems)
@@ -781,7 +833,10 @@ def gen_dir(g, did, shared_stems, emb_keys):
             stem = _fresh_stem(g, taken)
             if g.random() < 0.4:
                 shared_stems.append(stem)
-        entries.append({"name": "%s.%s" % (stem, g.choice(exts)), "kind": "file", "source": src})
+        ent = {"name": "%s.%s" % (stem, g.choice(exts)), "kind": "file", "source": src}
+        if g.random() < 0.2:
+            ent["variant"] = "extra-label"
+        entries.append(ent)
     # distractors
     for _ in range(g.choice([0, 1, 2, 3])):
         if not elig:
@@ -873,7 +928,9 @@ def gen_case(spec):
         add({"op": "items", "r": "e0"})
         add({"op": "len", "r": "e0"})
         add({"op": "embedded", "r": "e1", "kind": kind, "second": True})
+        add({"op": "iter_partial", "r": "e1", "n": 3})
         add({"op": "iter", "r": "e1"})
+        add({"op": "len", "r": "e1"})
         add({"op": "combined", "r": "c0"})
         add({"op": "add", "r": "c0", "member": "e0", "via": "lshift"})
         add({"op": "add", "r": "c0", "member": "e1", "via": "add_registry", "overlap": True, "repeat": True})
@@ -885,6 +942,7 @@ def gen_case(spec):
     if not faulty and st.random() < 0.12:
         store["medium"] = "osfs"
     shared_stems = []
+    used_sources = []
     emb_kinds = []
     n_emb = g.choice([0, 0, 1, 1, 2])
     kinds, weights = zip(*sorted(EMB_WEIGHT.items()))
@@ -895,7 +953,7 @@ def gen_case(spec):
         ks = sorted(_emb_model(kd))
         emb_keys.extend(g.sample(ks, min(3, len(ks))))
     for i in range(g.choice([1, 1, 2, 2, 3])):
-        cat["dirs"].append(gen_dir(g, "d%d" % i, shared_stems, emb_keys))
+        cat["dirs"].append(gen_dir(g, "d%d" % i, shared_stems, emb_keys, used_sources))
     handles = {}   # handle -> ("dir", dir dict) | ("embedded", kind) | ("combined", [member handles])
     keysets = {}   # handle -> model key set at generation time (fault-free view)
 
@@ -956,7 +1014,11 @@ def gen_case(spec):
             h = g.choice(live)
             kind = handles[h][0]
             y = g.random()
-            if y < 0.12:
+            if y < 0.05:
+                op = add({"op": "iter_partial", "r": h, "n": g.choice([0, 1, 1, 2, 5])})
+            elif y < 0.07 and len(keysets[h]) <= 30:
+                op = add({"op": "iter_nested", "r": h})
+            elif y < 0.12:
                 op = add({"op": "len", "r": h})
             elif y < 0.24:
                 op = add({"op": g.choice(["iter", "keys"]), "r": h})
@@ -1030,7 +1092,7 @@ def catalogue_summary(case):
     return {"dirs": [{"id": d["id"], "base": d["base"], "extensions": d["extensions"], "entries": [e["name"] + ("/" if e["kind"] == "dir" else "") for e in d["entries"]]} for d in case["catalogue"]["dirs"]], "store": case.get("store")}
 
 
-EXPECTED_PROBES = {"C20": ["add-overlapping-member", "add-repeated-member", "second-equal-embedded-instance", "key:present", "key:absent-random", "key:unsupported-ext", "key:subdir", "key:non-string", "key:key-with-extension", "op-after-fault", "op-on-registry-that-saw-a-fault"]}
+EXPECTED_PROBES = {"C20": ["abandoned-iteration", "same-plasmid-under-two-stems", "file-with-extra-label", "add-overlapping-member", "add-repeated-member", "second-equal-embedded-instance", "key:present", "key:absent-random", "key:unsupported-ext", "key:subdir", "key:non-string", "key:key-with-extension", "op-after-fault", "op-on-registry-that-saw-a-fault"]}
 
 
 def coverage_extra(prop, stats, probes):
